@@ -145,6 +145,7 @@ typedef struct {
   int        delay_min_ms, delay_max_ms;
   int        tcp_connect; /* 0 immediate success, 1 async success, 2 refused immediately, 3 refused later, 4 never completes */
   int        tcp_connect_delay_ms;
+  int        tcp_close_after_answer; /* the server closes the stream right after each batch of answers it sent */
   int        udp_answers_tc_over_tcp; /* when a TC was sent, TCP gets a normal answer */
   /* cookies (server side) */
   int        ck_mode;      /* 0 none, 1 valid, 2.. see cookie profile */
@@ -245,6 +246,7 @@ typedef struct {
   int      tcp_seg_mode;     /* 0 whole, 1 random chunks, 2 one byte */
   int      tcp_write_mode;   /* 0 full, 1 random partial, 2 one byte */
   int      wblock_permille;  /* chance that a TCP write returns EWOULDBLOCK first */
+  int      udp_wblock_permille; /* chance that a UDP send returns EWOULDBLOCK (socket buffer full) */
   uint8_t  local4[4];
   uint8_t  local6[16];
   int      legacy_poll;      /* 0 sock_state_cb + ares_process_fds, 1 ares_fds+ares_process, 2 ares_getsock+ares_process_fd */
@@ -263,6 +265,8 @@ static uint8_t  prov_addr_override_set[SIM_MAXPKT];
 static vh_rng_t sim_rng;   /* scheduler / network randomness */
 static vh_rng_t seg_rng;   /* transport chopping only (so that A/B runs draw the same sim_rng sequence) */
 static int      sim_no_subms_jitter; /* fixed server delays (A/B differential) */
+static int64_t  sim_fin_delay_us; /* how long after the last answer bytes the server's close becomes visible */
+static uint32_t sim_answer_auth_soa_ttl; /* >0: positive answers also carry an authority SOA with this (small) TTL */
 static int      sim_answer_foreign_class_every; /* addr profile: every n-th address record is class CH */
 static int      sim_answer_dup_every;           /* addr profile: every n-th address record is sent twice */
 static int      sim_fifo_events; /* fire simultaneous events in insertion order */
@@ -724,6 +728,11 @@ static ares_ssize_t vs_sendto(ares_socket_t s, const void *buf, size_t len, int 
   if (!v->is_tcp) {
     if (v->srv < 0 && sa != NULL) {
       v->srv = sim_find_srv(sa, 0);
+    }
+    if (sim_cfg.udp_wblock_permille && (int)vh_below(&seg_rng, 1000) < sim_cfg.udp_wblock_permille) {
+      sim_note("udp_send_wouldblock");
+      errno = EWOULDBLOCK;
+      return -1;
     }
     v->sent_any = 1;
     if (v->srv >= 0) {
